@@ -61,6 +61,7 @@ import JanetModel.Compile.SeqBlockLoops
 import JanetModel.Compile.SeqHintIf
 import JanetModel.Compile.SeqSet
 import JanetModel.Compile.SeqBoxInj
+import JanetModel.Compile.SeqSetSideH
 namespace JanetModel.Props.C02
 open JanetModel.Emit
 
@@ -721,7 +722,8 @@ theorem compile_correct_set (p : Program) (f0 : Frame) (rest : List Frame) (V : 
     (hsem : eval n cur env (.form [.sym "set", .sym x, ve] pp) s = .ok (v, env') s')
     (henv : EnvS G c.scopes env s.boxes.size sc.ra)
     (hmaxx : ∀ dest rx u l, lk c.scopes x = some (dest, u, l) → dest.k = .loc rx → rx ≤ sc.ra.max)
-    (hside : ∀ (q : Pos) (dest r : JSlot) (c2 : CState), cValue fuel { hint := some dest } ve { c with cur := q } = some (r, c2) →
+    (hside : ∀ (q : Pos) (dest r : JSlot) (c2 : CState), (∃ u l, lk c.scopes x = some (dest, u, l)) →
+      cValue fuel { hint := some dest } ve { c with cur := q } = some (r, c2) →
       (∀ u l, lk c.scopes x = some (dest, u, l) → ∃ u2 l2, lk c2.scopes x = some (dest, u2, l2)) ∧ MutInj c2.scopes)
     (hsame : ∀ a, lookupEnv env x = some a → lookupEnv env' x = some a)
     (hbi : BoxInj env s.boxes.size) :
@@ -730,6 +732,41 @@ theorem compile_correct_set (p : Program) (f0 : Frame) (rest : List Frame) (V : 
     (tf_hint_correct_b p f0 rest V P hP hK FF G b b (tf_correct_b p f0 rest V P hP hK FF G b) fuel)
     x ve pp hTv opts c c' slot sc rs pool ps n cur env env' s s' v ht hh hs hp hl htop hm hcomp hsem henv hmaxx hside hsame
     (fun n2 pos s1 he => (tf_boxinj G b n2 pos env env' ve s s1 v henv.gfree hbi hTv he).1)
+
+/-- **`set` with a value that contains no `def`** (`∀ y, NoBind y ve`: calls, `if`, `do` / `upscope` of such, literals, symbols — the
+    common case `(set x (f x …))`, `(set x (if c a b))`): all side conditions of `compile_correct_set` that talk about the EXIT of the
+    value follow from facts about the ENTRY state — `MutInj c.scopes` (a mutable name's register is held by no other resolvable
+    name), `BoxInj env s.boxes.size` (distinct names have distinct boxes) — by compile-only / semantic preservation theorems
+    (`nobind_lk_h`, `tf_mutinj_h`: Compile/SeqSetSideH.lean; `nobind_env`: SeqSetSide.lean; `tf_boxinj`).  What remains is `hmaxx`
+    (the variable's register lies in the frame). -/
+theorem compile_correct_set_nodef (p : Program) (f0 : Frame) (rest : List Frame) (V : Array Value) (P : List JanetModel.Emit.KConst)
+    (hP : P.length < 65536)
+    (hK : ∀ i, i < P.length → (p.defs.getD f0.defIdx default).consts.getD i .nil = litOf V (P.getD i .nil))
+    (FF : FloatFacts) (G : String → Prop) (b : Bool)
+    (fuel : Nat) (x : String) (ve : Expr) (pp : Pos) (opts : Fopts) (c c' : CState) (slot : JSlot) (sc : Scope) (rs : List Scope)
+    (pool : List JanetModel.Emit.KConst) (ps : List (List JanetModel.Emit.KConst)) (n : Nat) (cur : Pos) (env env' : Env) (s s' : SS) (v : Value)
+    (ht : opts.tail = false) (hh : opts.hint = none)
+    (hs : c.scopes = sc :: rs) (hp : c.pools = pool :: ps) (hl : c.lim ≤ 240) (htop : sc.top = false)
+    (hm : c.map.length = c.buf.length) (hTv : TF G b ve) (hnd : ∀ y, NoBind y ve)
+    (hcomp : cValue (fuel + 1) opts (.form [.sym "set", .sym x, ve] pp) c = some (slot, c'))
+    (hsem : eval n cur env (.form [.sym "set", .sym x, ve] pp) s = .ok (v, env') s')
+    (henv : EnvS G c.scopes env s.boxes.size sc.ra)
+    (hmaxx : ∀ dest rx u l, lk c.scopes x = some (dest, u, l) → dest.k = .loc rx → rx ≤ sc.ra.max)
+    (hmi : MutInj c.scopes) (hbi : BoxInj env s.boxes.size) :
+    ∃ rx, SetOK p f0 rest V P G c c' slot rx sc rs pool ps env env' s s' v := by
+  obtain ⟨n2, s1, a0, _, hev, _, _⟩ := eval_set_inv n cur env env' x ve pp s s' v hsem
+  have hsame : lookupEnv env' x = lookupEnv env x :=
+    nobind_env G b x n2 (posOf cur pp) env env' ve s s1 v henv.gfree hTv (hnd x) hev
+  refine compile_correct_set p f0 rest V P hP hK FF G b fuel x ve pp opts c c' slot sc rs pool ps n cur env env' s s' v ht hh hs hp hl htop hm
+    hTv hcomp hsem henv hmaxx ?_ (fun a ha => by rw [hsame]; exact ha) hbi
+  intro q dest r c2 hlkx hv
+  obtain ⟨u, l, hlk⟩ := hlkx
+  obtain ⟨_, _, hcf, rx, a, hk, _, _, _, hr⟩ := henv.found hlk
+  have hlk2 := nobind_lk_h G b x fuel ve { hint := some dest } { c with cur := q } c2 r sc rs pool ps dest rx rfl rfl hk hcf hr hs hp htop hm
+    hTv (hnd x) henv.lkl hv
+  exact ⟨fun u' l' h => ⟨u', l', by rw [hlk2]; exact h⟩,
+    tf_mutinj_h G b fuel ve { hint := some dest } { c with cur := q } c2 r sc rs pool ps dest rx rfl rfl hk hcf hr hs hp htop hm hTv hnd
+      henv.lkl hv hmi⟩
 
 /-- **`var` declarations**: `(var x e)` with `e` in the fragment `TF G b`, in a local scope, value used or dropped (no hint).
     `janetc_var` = the value, then `namelocal` with the MUTABLE flag: never an alias — always a fresh register and a copy — and the new
